@@ -67,6 +67,21 @@ void shrink(matrix *x, double delta)
   }
 }
 
+/* Largest coordinate distance of a vertex from the best one, relative to 1+|coordinate| */
+static double simplex_extent(matrix *x)
+{
+  size_t i, j;
+  double d, ext = 0.f;
+  for(i = 1; i < x->row; i++){
+    for(j = 0; j < x->col-1; j++){
+      d = fabs(x->data[i][j]-x->data[0][j])/(1.f+fabs(x->data[0][j]));
+      if(d > ext)
+        ext = d;
+    }
+  }
+  return ext;
+}
+
 /*
  * Implementing the Nelder-Mead simplex algorithm with adaptive parameters
  * Fuchang Gao, Lixing Han
@@ -243,7 +258,11 @@ double NelderMeadSimplex(double (*func)(),
     sleep(2);
     */
 
-    if(fabs(x->data[x->row-1][x->col-1]-x->data[0][x->col-1]) < xtol){
+    /* Equal objective values do not make a simplex small (a symmetric simplex
+     * around the minimum has them at any size): stop when the values agree
+     * AND the vertices have come together.
+     */
+    if(fabs(x->data[x->row-1][x->col-1]-x->data[0][x->col-1]) < xtol && simplex_extent(x) <= sqrt(xtol)){
       break;
     }
     else{
